@@ -29,7 +29,8 @@ func init() {
 			"(D) every connection acquired in a bridging function (Upgrade, Dial, Accept, DialWebsocket) has a deferred Close that follows its successful acquisition. " +
 			"Not decided: delivery of in-flight data before the close, timing. " +
 			"(A) no SetLinger(≥0) on any bridge connection (an abortive close discards queued data and resets the peer); a net.Conn wrapper's Close either is the embedded connection's or takes no lock that another method holds across blocking network I/O. " +
-			"No raw descriptor access (File/Fd/SyscallConn) on bridge sockets; after an acquisition no path returns before its Close is deferred; DialWebsocket does not retain its context.",
+			"No raw descriptor access (File/Fd/SyscallConn) on bridge sockets; after an acquisition no path returns before its Close is deferred; DialWebsocket does not retain its context. " +
+			"Every websocket dial of the bridge is bounded in time (gorilla DefaultDialer, a positive HandshakeTimeout, or a deadline context). (L, C15) no websocket read limit is armed on bridge connections.",
 		Assumptions: []string{"closing a net.Conn / websocket.Conn unblocks a Read pending on it and makes the peer observe end-of-stream"},
 		Run:         runC16,
 	})
@@ -402,10 +403,11 @@ func runC16(c *Ctx) {
 	p := c.Progs["mod"]
 	c.Rule("C16.K", "completion of either copy direction closes the pair", 4)
 	c.Rule("C16.D", "every acquired connection is released on exit", 4)
-	c.Rule("C16.A", "closing is orderly and cannot be blocked: no abortive-close socket option, Close never waits for a lock held across blocking I/O; no raw descriptor access; dial context not retained", 4)
+	c.Rule("C16.A", "closing is orderly and cannot be blocked: no abortive-close socket option, Close never waits for a lock held across blocking I/O; no raw descriptor access; dial context not retained; dial bounded in time", 5)
 	c16Orderly(c, p)
 	ruleNoRawDescriptor(c, p, "C16.A")
 	ruleDialContextNotRetained(c, p, "C16.A")
+	ruleDialHandshakeBounded(c, p, "C16.A")
 	sites := bridgeSites(p)
 	if len(sites) < 2 {
 		c.Bad("C16.K", "bridging-functions", p, 0, fmt.Sprintf("found %d bridging functions (2 confirmed by hand)", len(sites)))
